@@ -144,7 +144,9 @@ class Conserve:
         self.paths = 0
         self.summary(entry, self.entry_ctx)
         self.functions_reached = sorted({k[0] for k in self.done})
-        missing = [fd.fq for fd in fns if fd.fq not in self.functions_reached]
+        from . import callgraph as _cg
+        reach = {f.fq for f in _cg.CallGraph(self.repo).reachable([entry])}
+        missing = [fd.fq for fd in fns if fd.fq not in self.functions_reached and fd.fq in reach]
         if missing:
             raise AnalysisError('reader functions not reached from read_tex: %s' % ', '.join(missing))
         return self
